@@ -291,6 +291,11 @@ class Builtins:
                         return v
             I.raise_exc("KeyError", [idx], node, fr)
         if isinstance(base, AbsList):
+            if "split" in base.flags and isinstance(base.flags.get("of"), Unknown) and isinstance(idx, IntV):
+                # <opaque string>.split(sep)[i]: keep the position (the same rendering an opaque receiver always had)
+                b, sep = base.flags["split"]
+                return Unknown(f"{b}.split({sep!r})[{idx.v}]", {"recv": base.flags["of"], "index": idx,
+                                                                "expr": f"{b}.split({sep!r})[{idx.v}]"})
             return base.elem
         if isinstance(base, Str):
             if base.is_concrete() and isinstance(idx, IntV):
@@ -939,6 +944,9 @@ class Builtins:
                     return NONE
             if meth == "copy":
                 return DictV(list(recv.pairs))
+            if meth == "clear":
+                recv.pairs.clear()
+                return NONE
             if meth == "pop":
                 for i, (k, v) in enumerate(recv.pairs):
                     if I.equals(args[0], k):
